@@ -417,3 +417,10 @@ def r7(ctx):
     ctx.ob(f"{q}:wait-loop:exception-leaves-loop", bad_exc is None,
            "an exception while waiting ends the wait" if bad_exc is None else "after an exception from recv_frame the loop reads again", loc,
            {"path": path_text(bad_exc, 14)} if bad_exc else None)
+
+
+@rule("R-C08-8", min_instances=3, title="nothing of the stream outlives the connection inside the reader: no read-ahead beyond the frame being assembled, so after close()/shutdown() no buffered frame can be returned")
+def r_sib_r_c08_8(ctx):
+    from .c02 import r5 as no_read_ahead
+    no_read_ahead(ctx)
+
